@@ -177,6 +177,7 @@ static std::string normSub(const std::string &s) { return (s == "-" || s == "bog
 // "the most recent full roster received on the session with every later authorised push applied in order";
 // noSmDiscIsBoundary = false: the property's reading (a session ends only where a fresh one begins)
 // noSmDiscIsBoundary = true : additionally forget everything at a `disconnected` seen without stream management
+//                             (the behaviour before repo commit fd7e86c; only used to name that regression precisely)
 static void refFold(const std::vector<HEv> &h, bool noSmDiscIsBoundary, View &view, PresTab &pres)
 {
     view.clear(); pres.clear();
@@ -548,7 +549,8 @@ int main(int argc, char **argv)
                                                   "/me@example.org", "me@example.org@evil.example/home", " me@example.org" };
 
     // ---- corpus: minimized interesting histories first --------------------------------------
-    // failed reconnect attempt between a resumable drop and the successful resumption (see C12_defect_*)
+    // failed reconnect attempt between a resumable drop and the successful resumption: before repo commit fd7e86c the
+    // `disconnected` of the failed attempt wiped roster and presences (oracle keys C12:resume:*); `resumeWitness` in Props/C12.lean
     runSeq({ conn(1), res(0, "", { { A, "Alice", "both", { "friends" } } }), pres(A + "/phone", "available", "hi"),
              simple(Sym::Drop), simple(Sym::Fail), conn(3) }, true);
     runSeq({ conn(1), res(0, "", { { A, "Alice", "both", {} } }), simple(Sym::Drop), conn(3), iq("set", "", "p1", { { B, "", "to", {} } }) }, true);
